@@ -177,3 +177,29 @@ def after_prepare(vc):
     else:
         vc.check('conn-error/moves-to-next-host', len(sends) == 1 and sends[0][1] is h2)
         vc.check('conn-error/recorded', h1 in fut.attrs['_errors'])
+
+
+@harness('C19', 'prepared-statement-remembers-how-it-was-prepared', functions=['cassandra.query.PreparedStatement.from_message', 'cassandra.query.PreparedStatement.__init__'])
+def remembers(vc):
+    """what a later re-PREPARE needs is what the statement remembers: ensures PreparedStatement.from_message hands the query id, the query string, the keyspace it was
+    prepared against, the protocol version, the result metadata and its id on to the statement unchanged - for a statement with bind markers and for one without
+    (its own early-return path) - so that _reprepare sends exactly the original PREPARE"""
+    from cassandra.query import PreparedStatement
+    from contracts.c46_options import _Obj
+    tok = {k: _Obj(k) for k in ('query_id', 'query', 'prepared_keyspace', 'result_metadata', 'result_metadata_id', 'column_encryption_policy')}
+    markers = vc.choice('bind_markers', ['none', 'none-as-None', 'one'])
+
+    class Col(object):
+        keyspace_name, table_name, name = 'ks', 'tb', 'a'
+
+    class Meta(object):
+        keyspaces = {}
+    cols = [] if markers == 'none' else (None if markers == 'none-as-None' else [Col()])
+    pv = vc.choice('protocol_version', [4, 5])
+    ps = vc.call(PreparedStatement.from_message.__func__, PreparedStatement, tok['query_id'], cols, None, Meta(), tok['query'], tok['prepared_keyspace'], pv, tok['result_metadata'],
+                 tok['result_metadata_id'], tok['column_encryption_policy'])
+    a = ps.attrs if hasattr(ps, 'attrs') else vars(ps)
+    vc.check('remembered/query-id-and-text', a.get('query_id') is tok['query_id'] and a.get('query_string') is tok['query'])
+    vc.check('remembered/keyspace-it-was-prepared-against', a.get('keyspace') is tok['prepared_keyspace'])
+    vc.check('remembered/protocol-version-and-result-metadata', a.get('protocol_version') == pv and a.get('result_metadata') is tok['result_metadata'] and a.get('result_metadata_id') is tok['result_metadata_id'])
+    vc.check('remembered/encryption-policy', a.get('column_encryption_policy') is tok['column_encryption_policy'])
